@@ -511,3 +511,24 @@ PROPS['C12']['kani'] = PROPS['C12']['kani'] + [
 ]
 
 PROPS['C14']['decl'] = True
+
+# the two lossy text helpers of src/webauthn.rs and the heapless String code under them are proved by Verus for texts of any length
+# (unit c13_text_helpers); the container decoders of heapless / heapless-bytes for inputs of any length (unit dep_container_decoders)
+for _p in ('C13', 'C15', 'C04', 'C01'):
+    PROPS[_p]['verus'] = PROPS[_p].get('verus', []) + ['c13_text_helpers']
+for _p in ('C12', 'C05', 'C01', 'C04'):
+    PROPS[_p]['verus'] = PROPS[_p].get('verus', []) + ['dep_container_decoders']
+PROPS['C13']['assumptions'] = ['A4', 'A8', 'A12', 'AV', 'AK', 'AS', 'AX']
+PROPS['C13']['explanation'] = ('Two layers. (1) Verus, texts of ANY length and every capacity L: deserialize_from_str_and_skip_if_too_long keeps a text '
+    'of at most L bytes verbatim and reports a longer one absent, never an error; deserialize_from_str_and_truncate maps absent to absent and a present '
+    'text to the result of truncate (contract: the longest prefix of at most L bytes ending on a character boundary; a text that fits is unchanged - lemma '
+    'ob_C13_fitting_text_unchanged); the heapless String::{new, push_str, from_str} code under them is extracted from the pinned dependency and verified '
+    'against the Vec::extend_from_slice contract. (2) Kani, bounded in the text length: the body of truncate against the function contract of '
+    'floor_char_boundary (result == longest boundary prefix, no UB at unwrap_unchecked), that contract against the real body for all valid UTF-8 strings '
+    'up to 5 (thorough: 8) bytes and, under the window precondition, up to 300 bytes, every index; the real truncate::<64> and the icon helpers on texts '
+    'up to 300 bytes (ASCII and multi-byte). Level stays model_checking because the contract of truncate is discharged only for bounded lengths. '
+    'Rejection of ill-formed UTF-8 is the decoder\'s from_utf8 (A8).')
+ASSUMPTIONS['A4'] = ('A4 heapless 0.7 / heapless-bytes 0.3 container decoders accept <= N, reject > N and copy verbatim - PROVED by Verus on the pinned '
+    'dependency sources for inputs of any length (unit dep_container_decoders: Vec<T, N>::visit_seq, Bytes<N>::visit_bytes, String<N>::visit_str, '
+    'String::push_str / from_str) against the contracts of Vec::{new, push, extend_from_slice, capacity}, which are assumed in Verus and validated '
+    'on the real heapless code by the Kani harness dep_k_heapless_vec_contract (bounded); serde_bytes and the array impls of serde stay assumed')
